@@ -86,6 +86,40 @@ def fail(res, clause, api, args, out):
                          'input': list(args), 'impl_output': out})
 
 
+def narrow_integer_arguments(res, rng, C):
+    """whole-number arguments given as narrow numpy integers (int8 / uint8 / int16 / int32 scalars, e.g. a frequency index or a
+    height read from an integer array) are real scalars like any other: the value must be the one obtained for the same number as a
+    Python float (an intermediate product kept in the narrow type wraps around)"""
+    import numpy as np
+    for name, f in C.items():
+        for _ in range(6):
+            args = list(sample_args(rng, name))
+            # whole-number version of every argument that admits one (> 0.5), magnitudes as they occur: 1..400
+            whole = [float(max(1, round(a))) if isinstance(a, float) and a >= 0.5 else a for a in args]
+            if name == 'ochiHubbleSpectrum':
+                whole[2] = whole[1] + 1.0
+            k = rng.randrange(len(whole))
+            if not (isinstance(whole[k], float) and whole[k] == int(whole[k]) and whole[k] >= 1):
+                k = 0
+                if not (isinstance(whole[0], float) and whole[0] >= 1):
+                    continue
+            if k == 0:
+                whole[0] = float(rng.choice([1, 2, 3, 5, 20, 127, 200, 400]))
+            ty = rng.choice([np.int8, np.uint8, np.int16, np.int32, np.uint16])
+            if whole[k] > np.iinfo(ty).max:
+                ty = np.int32
+            res.evaluations += 1
+            res.stat('narrow_integer_argument')
+            try:
+                want = f(*whole)
+                got = f(*[ty(int(a)) if i == k else a for i, a in enumerate(whole)])
+            except Exception as e:  # noqa
+                fail(res, 'admissible whole-number argument rejected as a narrow numpy integer: ' + type(e).__name__ + ' ' + str(e)[:60], name, tuple(whole) + (k, ty.__name__), None)
+                continue
+            if not gen.close(float(got), float(want), 1e-9, 1e-300):
+                fail(res, 'value changes when a whole-number argument is a narrow numpy integer (%s, argument %d)' % (ty.__name__, k), name, tuple(whole), [float(got), float(want)])
+
+
 def explore(res, rng, n, areas):
     lsm = impl()
     C = calls(lsm)
@@ -116,6 +150,7 @@ def explore(res, rng, n, areas):
                     res.stat('numpy_scalar_arguments')
                 except Exception as e:  # noqa
                     fail(res, 'admissible parameters rejected when passed as numpy scalars: ' + type(e).__name__ + ' ' + str(e)[:60], name, a32, None)
+    narrow_integer_arguments(res, rng, C)
     gen.validate(res, 'Wave', [c for c in tv if c[0] in ('piersonMoskowitzSpectrum', 'jonswapSpectrum', 'isscSpectrum',
                                                           'gaussianSwellSpectrum', 'ochiHubbleSpectrum')], rtol=1e-9)
     gen.validate(res, 'Wind', [c for c in tv if c[0] not in ('piersonMoskowitzSpectrum', 'jonswapSpectrum', 'isscSpectrum',
